@@ -1,2 +1,3 @@
 //! Independent codecs for the cross-language image formats, written from the published layouts.
 pub mod hll;
+pub mod tdigest;
